@@ -187,6 +187,14 @@ CLAIMS['C26'] = dict(
          'replaced by ErrorMessage::toString.',
     design='3/C26', note='That each finding is rendered exactly once and that the three formats carry the same finding sets is not decided.')
 
+CLAIMS['C10'] = dict(
+    technique='static analysis: table extraction from the switch of Platform::set(Type) compared entry by entry with the compiler\'s target description (predefined macros of '
+              '`clang -target T -E -dM`, nothing is executed), field-coverage and must-pass-through on every successful return, reader/data-file agreement for platforms/*.xml',
+    text='Decides that for unix32/unix64/win32A/win32W/win64 every sizeof_* constant, char_bit and the default char signedness equal the data model of the corresponding clang '
+         'target; that every `return true` of Platform::set(Type) follows the assignment of all size members, char_bit, defaultSign, type and a call of calculateBitMembers(); that '
+         'the XML loader recomputes the bit widths and has an element for every size member; and that each shipped platforms/*.xml defines every member exactly once.',
+    design='3/C10', note='Numerical results (MathLib literal parsing, character literals, constant folding, truncation arithmetic) are not decided - only the table they read.')
+
 NOT_APPLICABLE = {
     'C01': 'soundness of inferred values vs. concrete executions of arbitrary programs; needs an executing/symbolic oracle, no structural necessary condition in valueflow.cpp',
     'C02': 'same as C01, for container sizes',
